@@ -1089,6 +1089,58 @@ pub fn run_c05(tier: &str, seed: u64) -> Report {
         }
     });
     total.merge(r);
+    // the footer and its NEIGHBOURING pieces must not be interchangeable: (footer X, no assertion) vs (no footer, assertion X),
+    // and for public tokens (empty message, footer X) vs (message X, no footer) - an encoding that mishandles EMPTY pieces
+    // makes these pairs authenticate alike
+    let mut rsw = Report::new();
+    for &p in &ALL {
+        let key = pools.key(p, 0);
+        let mut rng = Rng::new(seed, "c05-swap", p as u64);
+        let x = "{\"kid\":\"swap-me\"}";
+        for layer in [Layer::Core, Layer::Generic] {
+            if p.has_assertion() {
+                // built with footer X and no assertion; presented WITHOUT the footer segment, expecting no footer, assertion X
+                if let Out::Ok(t) = seal_at(layer, p, &key, &mut rng, JSON_MSG, Some(x), None) {
+                    let segs: Vec<&str> = t.split('.').collect();
+                    let bare = format!("{}.{}.{}", segs[0], segs[1], segs[2]);
+                    rsw.evaluations += 1;
+                    match open_any(layer, p, &key, &bare, None, Some(x)) {
+                        Out::Ok(_) => rsw.violation(format!("C05 footer-accepted-as-assertion {}/{}", p.name(), layer.name()), format!("{}/{}: a token built with footer {:?} and no assertion was ACCEPTED without its footer segment when {:?} was supplied as the implicit assertion", p.name(), layer.name(), x, x), json!({"cmd": "C05", "note": "piece-swap case: re-run the check", "p": p.name()})),
+                        Out::Panic(l) => rsw.violation(format!("C05 panic {}", p.name()), format!("{}: panic {}", p.name(), l), json!({"cmd": "C05", "note": "piece-swap case: re-run the check"})),
+                        _ => rsw.count("footer / neighbouring piece swaps refused"),
+                    }
+                }
+                // built with assertion X and no footer; presented with X spliced on as footer segment, expecting footer X, no assertion
+                if let Out::Ok(t) = seal_at(layer, p, &key, &mut rng, JSON_MSG, None, Some(x)) {
+                    let spliced = format!("{}.{}", t.trim_end_matches('.'), util::b64(x.as_bytes()));
+                    rsw.evaluations += 1;
+                    match open_any(layer, p, &key, &spliced, Some(x), None) {
+                        Out::Ok(_) => rsw.violation(format!("C05 assertion-accepted-as-footer {}/{}", p.name(), layer.name()), format!("{}/{}: a footer-less token built with assertion {:?} was ACCEPTED under expected footer {:?} once that footer segment was spliced on", p.name(), layer.name(), x, x), json!({"cmd": "C05", "note": "piece-swap case: re-run the check", "p": p.name()})),
+                        Out::Panic(l) => rsw.violation(format!("C05 panic {}", p.name()), format!("{}: panic {}", p.name(), l), json!({"cmd": "C05", "note": "piece-swap case: re-run the check"})),
+                        _ => rsw.count("footer / neighbouring piece swaps refused"),
+                    }
+                }
+            }
+        }
+        if !p.is_local() {
+            // (empty message, footer X) re-read as (message X, no footer) under the same signature
+            if let Out::Ok(t) = core_seal(p, &key, &rng.bytes(32), "", Some(x), None).0 {
+                if let Some(parts) = crate::c03::parts(p, &t) {
+                    let mut payload2 = x.as_bytes().to_vec();
+                    payload2.extend_from_slice(&parts.payload);
+                    let tok2 = format!("{}{}", p.header(), util::b64(&payload2));
+                    rsw.evaluations += 1;
+                    match open_any(Layer::Core, p, &key, &tok2, None, None) {
+                        Out::Ok(m) => rsw.violation(format!("C05 footer-accepted-as-message {}", p.name()), format!("{}: the signature over (empty message, footer {:?}) was ACCEPTED for (message {:?}, no footer); returned {:?}", p.name(), x, x, util::clip(&m, 60)), json!({"cmd": "C05", "note": "piece-swap case: re-run the check", "p": p.name()})),
+                        Out::Panic(l) => rsw.violation(format!("C05 panic {}", p.name()), format!("{}: panic {}", p.name(), l), json!({"cmd": "C05", "note": "piece-swap case: re-run the check"})),
+                        _ => rsw.count("footer / neighbouring piece swaps refused"),
+                    }
+                }
+            }
+        }
+    }
+    rsw.require("footer / neighbouring piece swaps refused", 12);
+    total.merge(rsw);
     // re-cut across a LENGTH PREFIX of the pre-authentication encoding: if lengths n and n+d shared an encoding, the bytes
     // `LE64(|F|) || F[..d-8]` could be moved from the footer into the message (or ciphertext) and the rest `F[d..]` presented
     // as the footer, under the same signature / tag.  F is chosen so that F[d-8..d] reads as the length prefix of F[d..].
@@ -1206,7 +1258,7 @@ pub fn replay_c05(case: &Value) -> Report {
     r
 }
 
-pub const RULE_C05: &str = "8 protocols x 3 layers x footer catalogue (none, empty, 40 strings + 20 (thorough 300) seeded random ones; incl. prefix/extension pairs, case and whitespace variants, NUL suffix, NFC/NFD, strings whose base64 differs in the last character, strings that are themselves base64 or contain dots): a token is built with each footer F through that layer's builder and presented to that layer's parser with every expected footer F' of the catalogue; oracle: accept iff F' == F with none == empty (string equality in the harness). Plus a re-cut across a length prefix (the first d bytes of the footer, preceded by the footer's length field, are moved behind the message / ciphertext and the rest is presented as footer, d in {128, 256, 65536}: collides iff the PAE length encoding is not injective). Plus a footer LENGTH sweep (every length 0..=330 and 65535..65537: built, opened with the same footer, its one-byte-shorter prefix, its one-byte extension and same-length footers differing only in the last byte / last eight bytes). Plus parser sessions (the expected footer is changed between parses of one parser object) and 160 (thorough 2000) NESTED pairs of them (a second parser object is created, used and dropped in the middle of another one's session on the same thread; both must answer as alone). Plus the footer segment of every produced token compared with the harness's own base64url encoder, and edits of the segment (removed, emptied, replaced with and without matching expectation, extended, truncated, raw text, followed by further segments, added to a footer-less token with a matching, an empty and NO expectation). distinct_nontrivial = distinct (protocol, layer, built class, supplied class) for accepted pairs and (protocol, layer, case class, rejection variant) for rejected ones";
+pub const RULE_C05: &str = "8 protocols x 3 layers x footer catalogue (none, empty, 40 strings + 20 (thorough 300) seeded random ones; incl. prefix/extension pairs, case and whitespace variants, NUL suffix, NFC/NFD, strings whose base64 differs in the last character, strings that are themselves base64 or contain dots): a token is built with each footer F through that layer's builder and presented to that layer's parser with every expected footer F' of the catalogue; oracle: accept iff F' == F with none == empty (string equality in the harness). Plus swaps of the footer with its neighbouring pieces ((footer X, no assertion) presented as (no footer, assertion X) and vice versa; for public tokens (empty message, footer X) as (message X, no footer)). Plus a re-cut across a length prefix (the first d bytes of the footer, preceded by the footer's length field, are moved behind the message / ciphertext and the rest is presented as footer, d in {128, 256, 65536}: collides iff the PAE length encoding is not injective). Plus a footer LENGTH sweep (every length 0..=330 and 65535..65537: built, opened with the same footer, its one-byte-shorter prefix, its one-byte extension and same-length footers differing only in the last byte / last eight bytes). Plus parser sessions (the expected footer is changed between parses of one parser object) and 160 (thorough 2000) NESTED pairs of them (a second parser object is created, used and dropped in the middle of another one's session on the same thread; both must answer as alone). Plus the footer segment of every produced token compared with the harness's own base64url encoder, and edits of the segment (removed, emptied, replaced with and without matching expectation, extended, truncated, raw text, followed by further segments, added to a footer-less token with a matching, an empty and NO expectation). distinct_nontrivial = distinct (protocol, layer, built class, supplied class) for accepted pairs and (protocol, layer, case class, rejection variant) for rejected ones";
 
 // ==========================================================================================
 // C06
